@@ -22,8 +22,10 @@ const O_REMOVE_NODE: u8 = 3;
 const O_PROCESS: u8 = 4; // a = position of the output node
 const O_SOURCES_SINKS: u8 = 5;
 const O_SWITCH_GRAPH: u8 = 6;
+const O_PROCESS_NODE_PANICS: u8 = 7; // a = output position, b = position of the node that fails
+const O_PROCESS_MISSING: u8 = 8; // process() with an index that names no node
 
-static OPS: [OpSpec; 7] = [
+static OPS: [OpSpec; 9] = [
     OpSpec { name: "add_node", shrink: 1 },
     OpSpec { name: "add_edge", shrink: 3 },
     OpSpec { name: "remove_edge", shrink: 1 },
@@ -31,6 +33,8 @@ static OPS: [OpSpec; 7] = [
     OpSpec { name: "process", shrink: 1 },
     OpSpec { name: "sources_sinks", shrink: 0 },
     OpSpec { name: "switch_graph", shrink: 0 },
+    OpSpec { name: "process_while_a_node_panics", shrink: 3 },
+    OpSpec { name: "process_missing_index", shrink: 0 },
 ];
 
 const F_NODE_REMOVED: usize = 0;
@@ -43,6 +47,8 @@ const F_VACANT_SLOT: usize = 6;
 const F_SELF_LOOP: usize = 7;
 const F_PARALLEL_EDGE: usize = 8;
 const F_INDEX_RENUMBERED: usize = 9;
+const F_NODE_PANIC: usize = 10;
+const F_MISSING_INDEX: usize = 11;
 
 const P_UNREACHABLE_ISLAND: usize = 0;
 const P_DIAMOND: usize = 1;
@@ -66,10 +72,16 @@ pub struct ProbeNode {
     tag: u32,
     log: Log,
     call: Rc<Cell<u32>>,
+    /// fault injection: the node with this tag fails (panics) the next time it is invoked
+    fail_tag: Rc<Cell<u32>>,
 }
 
 impl Node for ProbeNode {
     fn process(&mut self, inputs: &[Input], output: &mut [Buffer]) {
+        if self.fail_tag.get() == self.tag {
+            self.fail_tag.set(0);
+            panic!("injected node failure");
+        }
         let ins = inputs
             .iter()
             .map(|i| {
@@ -112,6 +124,7 @@ struct Gen {
     allow_cycles: bool,
     allow_switch: bool,
     max_nodes: usize,
+    allow_panics: bool,
 }
 
 fn gen_op(r: &mut Rng, g: &mut Gen, live: usize, edges: usize) -> Option<Op> {
@@ -134,6 +147,8 @@ fn gen_op(r: &mut Rng, g: &mut Gen, live: usize, edges: usize) -> Option<Op> {
         if live > 0 { 10 } else { 0 },
         2,
         if g.allow_switch { 1 } else { 0 },
+        if live > 0 && g.allow_panics { 1 } else { 0 },
+        if g.allow_panics { 1 } else { 0 },
     ];
     let k = r.weighted(&w) as u8;
     let _ = g.allow_cycles;
@@ -142,6 +157,7 @@ fn gen_op(r: &mut Rng, g: &mut Gen, live: usize, edges: usize) -> Option<Op> {
         O_ADD_EDGE => Op::kab(k, r.range(0, live as i64 - 1), r.range(0, live as i64 - 1)),
         O_REMOVE_EDGE => Op::ka(k, r.range(0, edges as i64 - 1)),
         O_REMOVE_NODE | O_PROCESS => Op::ka(k, r.range(0, live as i64 - 1)),
+        O_PROCESS_NODE_PANICS => Op::kab(k, r.range(0, live as i64 - 1), r.range(0, live as i64 - 1)),
         _ => Op::k(k),
     })
 }
@@ -156,6 +172,7 @@ fn drive<G: GraphLike<ProbeNode>>(src: &mut Source, obs: &mut Observer) -> Resul
         init: 0,
         allow_cycles: src.cfg("allow_cycles", 0, 1, |r| r.chance(2, 3) as i64) == 1,
         allow_switch: src.cfg("allow_switch", 0, 1, |r| r.chance(1, 3) as i64) == 1,
+        allow_panics: src.cfg("allow_panics", 0, 1, |r| r.chance(1, 3) as i64) == 1,
     };
     let big = gen.max_nodes > 10;
     gen.init = src.cfg("init_ops", 0, 200, |r| if big { r.range(60, 200) } else { r.range(0, 24) });
@@ -163,6 +180,7 @@ fn drive<G: GraphLike<ProbeNode>>(src: &mut Source, obs: &mut Observer) -> Resul
     let max_edges = 24.max(gen.max_nodes * 2);
     let log: Log = Rc::new(RefCell::new(Vec::new()));
     let call = Rc::new(Cell::new(0u32));
+    let fail_tag = Rc::new(Cell::new(0u32));
     let mut next_tag = 1u32;
     let mut worlds: Vec<World<G>> = (0..2)
         .map(|_| World {
@@ -213,6 +231,7 @@ fn drive<G: GraphLike<ProbeNode>>(src: &mut Source, obs: &mut Observer) -> Resul
                     tag,
                     log: log.clone(),
                     call: call.clone(),
+                    fail_tag: fail_tag.clone(),
                 };
                 let idx = w.g.add(NodeData::new(node, vec![Buffer::SILENT; nbuf]));
                 w.m.add_at(idx.index(), NodeM { tag, nbuf });
@@ -277,6 +296,66 @@ fn drive<G: GraphLike<ProbeNode>>(src: &mut Source, obs: &mut Observer) -> Resul
             O_SWITCH_GRAPH => {
                 obs.tick(op.k);
                 active = 1 - active;
+                continue;
+            }
+            O_PROCESS_NODE_PANICS | O_PROCESS_MISSING => {
+                // a crash in the middle of a traversal: the host catches the unwind and keeps using
+                // the same Processor; the *next* calls are checked as usual
+                let missing = op.k == O_PROCESS_MISSING;
+                let target = if missing {
+                    Some(NodeIndex::new(w.m.slots.len() + 3))
+                } else {
+                    pick(op.a).map(NodeIndex::new)
+                };
+                let Some(target) = target else {
+                    src.skip_last();
+                    obs.skipped();
+                    continue;
+                };
+                obs.tick(op.k);
+                call.set(call.get() + 1);
+                if call.get() > 1 {
+                    obs.inflight();
+                }
+                let mut up: Vec<usize> = Vec::new();
+                if !missing {
+                    up = w.m.upstream(target.index());
+                    let victim = pick(op.b).unwrap();
+                    fail_tag.set(w.m.slots[victim].as_ref().unwrap().tag);
+                }
+                log.borrow_mut().clear();
+                let g = &mut w.g;
+                let r = std::panic::catch_unwind(std::panic::AssertUnwindSafe(|| g.run(&mut p, target)));
+                let victim_tag = fail_tag.replace(0);
+                let calls = std::mem::take(&mut *log.borrow_mut());
+                if missing {
+                    obs.fault(F_MISSING_INDEX);
+                    check!(obs, r.is_err() && calls.is_empty(), "graph.missing-index", "process() on an index that names no node neither panicked nor did nothing");
+                } else {
+                    // victim_tag == 0 means the victim was reached and did panic
+                    let fired = victim_tag == 0;
+                    check_eq!(obs, r.is_err(), fired, "graph.node-panic-propagates", "process() unwinds exactly when the failing node is invoked");
+                    if fired {
+                        obs.fault(F_NODE_PANIC);
+                    }
+                    // whatever ran before the failure still belongs to the upstream set, at most once each
+                    let mut tags: Vec<u32> = calls.iter().map(|c| c.tag).collect();
+                    tags.sort();
+                    let n_before = tags.len();
+                    tags.dedup();
+                    check_eq!(obs, tags.len(), n_before, "graph.processed-set", "a node was invoked twice in a call that was cut short by a panic");
+                    for t in &tags {
+                        check!(
+                            obs,
+                            up.iter().any(|&n| w.m.slots[n].as_ref().unwrap().tag == *t),
+                            "graph.processed-set",
+                            "node tag {} was invoked although it has no path to the output",
+                            t
+                        );
+                    }
+                }
+                last_processed_world = Some(active);
+                w.last_out_tag = None;
                 continue;
             }
             O_SOURCES_SINKS => {
@@ -472,6 +551,8 @@ impl Scenario for GraphScenario {
             "self-loop added",
             "parallel edge added",
             "Graph::remove_node renumbered the last node",
+            "a node's process() panicked mid-traversal; the host caught it and keeps using the Processor",
+            "process() called with an index that names no node (documented panic), caught, Processor reused",
         ]
     }
     fn probes(&self) -> &'static [&'static str] {
